@@ -85,5 +85,5 @@ def run_stages(prop, argv, stages_for_tier, level="model_checking", assumptions=
         "stages": cov_stages,
     }
     if extra_cov is not None:
-        coverage["sequential_part"] = extra_cov
+        coverage[extra_cov.pop("_key", "sequential_part")] = extra_cov
     return driver.finish(prop, tier, seed, level, coverage, t0, violations, list(assumptions), infra)
